@@ -59,6 +59,28 @@ static std::string tailOfFile(const std::string& path, size_t maxBytes) {
     return s;
 }
 
+// Wall-clock watchdog of a run. A run that is still making simulation progress when the limit expires (typically a
+// starved engine thread under a sanitizer flavour) ends as "inconclusive: slow-run"; a run that makes no progress at all
+// during the grace period (a loop inside code without any simulation point) dies with SIGALRM = wall-clock-timeout.
+static volatile int g_wallPhase = 0;
+static volatile unsigned long long g_wallProgress0 = 0;
+static void wallHandler(int) {
+    if (g_wallPhase == 0) {
+        g_wallPhase = 1;
+        g_wallProgress0 = vsim_progress;
+        alarm((unsigned)std::max(5, g_wallLimit / 6));
+        return;
+    }
+    if (vsim_progress - g_wallProgress0 >= 100 && g_resultFd >= 0) {
+        static const char line[] = "{\"verdict\":\"inconclusive\",\"property\":\"\",\"vclass\":\"slow-run\",\"detail\":\"wall-clock limit reached while the simulation was still making progress\",\"counters\":{},\"info\":{}}\n";
+        ssize_t w = write(g_resultFd, line, sizeof line - 1);
+        (void)w;
+        _exit(0);
+    }
+    signal(SIGALRM, SIG_DFL);
+    raise(SIGALRM);
+}
+
 /** Run one scenario in a forked child. Returns a JSON line. */
 static std::string runOne(const Scenario& sc, bool keepStderr) {
     const RunClass* rc = findClass(sc.cls);
@@ -74,6 +96,7 @@ static std::string runOne(const Scenario& sc, bool keepStderr) {
         g_resultFd = pfd[1];
         int efd = open(errPath.c_str(), O_WRONLY | O_CREAT | O_TRUNC, 0644);
         if (efd >= 0 && !keepStderr) { dup2(efd, 2); close(efd); }
+        signal(SIGALRM, wallHandler);
         alarm((unsigned)g_wallLimit);
         Result res;
         rc->run(sc, res);
